@@ -166,7 +166,8 @@ def mutate(inst, path, kw, s, root, rng):
     if kw == "maxItems":
         if not isinstance(cur, list) or not cur:
             return None
-        return _set(inst, path, [copy.deepcopy(cur[0]) for _ in range(s["maxItems"] + 1)])
+        small = valid_value(s.get("items", {}), root, "plain", rng, "none")
+        return _set(inst, path, [copy.deepcopy(small) for _ in range(s["maxItems"] + 1)])
     if kw == "minimum":
         v = s["minimum"] - 1
         return _set(inst, path, int(v) if s.get("type") == "integer" else v - 0.5)
@@ -210,6 +211,9 @@ def instances_for(name, schema, rng, tier, combos=2):
         if m is not None:
             out.append(("viol:" + kw.split(":")[0], m, [("/".join(map(str, path)), kw)]))
             muts.append((path, kw, node))
+        if kw == "type" and path and rng.random() < 0.35:
+            # JSON null in place of a value is a type violation too (and is what remove_nones would hide)
+            out.append(("viol:null", _set(copy.deepcopy(full), path, None), [("/".join(map(str, path)), kw)]))
     n_combo = combos if tier == "quick" else combos * 4
     for _ in range(n_combo):
         if len(muts) < 2:
